@@ -1201,7 +1201,7 @@ func (w *Worker) callBuiltin(fr *frame, fn *ssa.Builtin, args []Value) Value {
 		}
 		return recv
 	}
-	w.unsupported("builtin " + fn.Name())
+	w.unsupported("builtin " + fn.Name() + " at " + fr.site())
 	return Poison{"builtin " + fn.Name()}
 }
 
